@@ -909,7 +909,7 @@ def _run_cases(check, impl):
 		groups.append((f'probe{number}', [(f'probe{number}', text, result, site, flags)]))
 
 	count = 150 if check.tier == 'quick' else 5000
-	all_sites = 0 if check.tier == 'quick' else 300    # the first schemas get every (site x kind), the others one site per kind (plus a few)
+	all_sites = 0 if check.tier == "quick" else 200    # the first schemas get every (site x kind), the others one site per kind (plus a few)
 	jobs = []
 	for index in range(count):
 		ir, flags = gen_schema(rng)
